@@ -358,7 +358,7 @@ func classifyWire(c WireCase, tw *WTrace, data, ctl []Sent, o *Obs) {
 			split = true
 		}
 		for _, p := range s.Parts {
-			if p.API == "control" {
+			if p.API == "control" || p.API == "prepctl" {
 				inter = true
 			}
 			o.Class("part_" + p.API)
